@@ -77,9 +77,10 @@ def run(prog, tier, extra=None):
     res = Result("C01", "other")
     R1 = res.rule("C01.gate", "a rejecting verdict reaches no accept outcome of its consumer", floor=18)
     R1b = res.rule("C01.combinator", "the result of all()/any() over a verdict closure gates its consumer", floor=2)
-    R2 = res.rule("C01.who-may-insert", "only add_transaction (behind validate) and add_block_transactions_back insert into the pool", floor=3)
+    R2 = res.rule("C01.who-may-insert", "only add_transaction (behind validate) and add_block_transactions_back insert into the pool", floor=2)
     R4 = res.rule("C01.dup-scan", "the in-block double-spend scan checks and records each spent key individually", floor=1)
     R5 = res.rule("C01.scan-exemptions", "only zero-amount and Bound inputs are exempt from the in-block double-spend test", floor=0)
+    R8 = res.rule("C01.ledger-check-window", "the ledger check is switched on by the presence of the block exactly one configured genesis period behind the tip (or block 1)", floor=2)
     R7 = res.rule("C01.utxo-lookup", "validate_against_utxoset skips the per-input ledger lookup only for the Fee transaction", floor=1)
     R6 = res.rule("C01.tx-dup", "Transaction::validate accepts a non-privileged transaction only after a test that can tell a repeated input key", floor=1)
     R3 = res.rule("C01.signature", "Transaction::validate accept paths pass verify_signature(hash_for_signature, signature, from[0].public_key)", floor=1)
@@ -439,6 +440,53 @@ def run(prog, tier, extra=None):
                         "transaction can name an input that does not exist (or leave the real one spendable)", vu.loc(path[-1]), {"path": describe_path(vu, path)}))
     else:
         res.sample({"rule": R7, "exempt": [v for _, v in fee_sites], "verdict": "every other type reaches the per-input Slip::validate"})
+
+    # R8: Block::validate is asked to check inputs against the ledger only when has_total_supply_loaded says the node holds the
+    # whole spendable history: block 1, or the longest-chain block exactly one genesis period behind the tip. The block ring keeps
+    # two genesis periods, so a test for a block further back never becomes true on a node that joined mid-chain and its double-
+    # spend check stays off for good; a test for a nearer block turns it on against an incomplete ledger.
+    from ..linear import Linearizer as _Lz8
+    hs = prog.body(CORE + "consensus::blockchain::Blockchain::has_total_supply_loaded")
+    if hs is None:
+        raise LookupError("Blockchain::has_total_supply_loaded not found")
+    ch8 = Chaser(hs)
+    lz8 = _Lz8(hs, ch8, prog)
+    n_window = 0
+    for bb, t in hs.calls():
+        if not (call_name(t) or "").endswith("BlockRing::get_longest_chain_block_hash_at_block_id") or len(t["args"]) < 2:
+            continue
+        v = lz8.lin(ch8.origin(t["args"][1]))
+        if v is not None and v.is_const():
+            continue
+        res.instance(R8)
+        ok = False
+        if v is not None and int(v.c) == v.c and 0 <= v.c <= 1 and len(v.t) == 2:
+            co = {k: c for k, c in v.t.items()}
+            par = [k for k in co if k[0] == "L" and k[1] == 2]
+            tip = [k for k in co if k[0] == "O" and "get_latest_block_id" in k[1]]
+            ok = len(par) == 1 and len(tip) == 1 and co[par[0]] == -1 and co[tip[0]] == 1
+        if ok:
+            n_window += 1
+            res.sample({"rule": R8, "site": hs.loc(bb), "looked_up": str(v)})
+        else:
+            res.add(Finding(R8, "C01.ledger-check-window|offset", "has_total_supply_loaded looks for the longest-chain block at `%s`, not at tip - genesis_period: the ledger check of "
+                            "Block::validate is switched on for the wrong set of nodes (never, for a block beyond what the ring keeps)" % (str(v) if v is not None else show(ch8.origin(t["args"][1]))[:60]), hs.loc(bb)))
+    if n_window == 0 and not any(f.rule == R8 for f in res.findings):
+        res.add(Finding(R8, "C01.ledger-check-window|anchors", "has_total_supply_loaded no longer looks up the block one genesis period behind the tip", hs.loc(0)))
+    for cb in prog.all_bodies():
+        if "::tests::" in cb.path or cb.is_promoted:
+            continue
+        chc = None
+        for bb, t in cb.calls():
+            if (t.get("res") or t.get("callee") or "") != hs.path:
+                continue
+            chc = chc or Chaser(cb)
+            res.instance(R8)
+            e = chc.origin(t["args"][1])
+            if has_field(e, None, "genesis_period"):
+                res.sample({"rule": R8, "caller": consumer_name(cb.path), "site": cb.loc(bb), "argument": "the configured genesis_period"})
+            else:
+                res.add(Finding(R8, "C01.ledger-check-window|argument|%s" % cb.path, "%s asks has_total_supply_loaded about `%s`, not the configured genesis period" % (consumer_name(cb.path), show(e)[:60]), cb.loc(bb)))
 
     # the ledger C01's verdicts are evaluated against is the one wind/unwind maintain, and the only un-signed spends the
     # validator admits are the rebroadcasts it re-derives: both mechanisms are decided by the C03 / C13 rules, cross-listed here
